@@ -14,7 +14,9 @@ def run(tier, seed):
     d = 4 if tier == "quick" else 5
     _, rep_e, _ = enginecommon.histories(v, wd, "engine", d)
     _, rep_n, _ = enginecommon.histories(v, wd, "engine", d, initset="notagblock")
-    _, rep_b, _ = enginecommon.histories(v, wd, "blocker", d if tier == "thorough" else 3)
+    _, rep_b, _ = enginecommon.histories(v, wd, "blocker", 4 if tier == "thorough" else 3)
+    if tier == "thorough":
+        enginecommon.histories(v, wd, "blocker", 5, ops="all5")
     runs, nops = (1, 800) if tier == "quick" else (6, 3000)
     enginecommon.longhist_stage(v, wd, seed, "engine", runs, nops)
     enginecommon.longhist_stage(v, wd, seed, "blocker", runs, nops)
